@@ -201,6 +201,35 @@ def h_padded(ctx, chain, plen):
     ctx.select_chain('mainnet')
 
 
+def h_mixedcase(ctx, chain, kind, which):
+    """bech32 address text with the human-readable part and the data part in different letter cases"""
+    W = ctx.mod('bitcoin.wallet')
+    S = ctx.script
+    ctx.select_chain(chain)
+    hrp = TABLE[chain]['hrp']
+    n = 32 if kind == 'p2wsh' else 20
+    payload = ctx.bytes('payload', n)
+    with _Patched(ctx):
+        text = ctx.to_str(W.CBitcoinAddress.from_scriptPubKey(S.CScript(_script(ctx, kind, payload))))
+        W.CBitcoinAddress(text)
+        data = text[len(hrp) + 1:]
+        if which == 'upper_hrp':
+            bad = ctx.str_concat(hrp.upper() + '1', data)
+            mixed = ctx.or_(*[ctx.and_(ctx.ord1(data[i]) >= 97, ctx.ord1(data[i]) <= 122) for i in range(len(data))])
+        elif which == 'one_hrp_letter':
+            bad = ctx.str_concat(hrp[0].upper() + hrp[1:] + '1', data)
+            mixed = True
+        else:
+            bad = ctx.str_concat(hrp + '1', data.upper())
+            mixed = ctx.or_(*[ctx.and_(ctx.ord1(data[i]) >= 97, ctx.ord1(data[i]) <= 122) for i in range(len(data))])
+        try:
+            W.CBitcoinAddress(bad)
+            ctx.check(ctx.not_(mixed), 'mixed-case address text refused with CBitcoinAddressError')
+        except W.CBitcoinAddressError:
+            ctx.check(True, 'mixed-case address text refused with CBitcoinAddressError')
+    ctx.select_chain('mainnet')
+
+
 def h_variants(ctx, chain, variant):
     """P2PKH converter: non-canonical pushes and bare pubkeys"""
     W = ctx.mod('bitcoin.wallet')
@@ -244,6 +273,8 @@ def h_cross(ctx, chain_a, chain_b, kind):
     with _Patched(ctx):
         ctx.select_chain(chain_a)
         text = ctx.to_str(W.CBitcoinAddress.from_scriptPubKey(S.CScript(_script(ctx, kind, payload))))
+        first = W.CBitcoinAddress(text)          # history: the text is parsed successfully under its own chain first
+        ctx.check(first.to_bytes() == payload, 'roundtrip: parsed class')
         ctx.select_chain(chain_b)
         _refused(ctx, W, text, 'cross-chain text is refused with CBitcoinAddressError', '%s address of %s accepted under %s' % (kind, chain_a, chain_b))
     ctx.select_chain('mainnet')
@@ -304,7 +335,7 @@ def h_arbitrary(ctx, chain, n):
     ctx.select_chain('mainnet')
 
 
-HARNESSES = {'rechain': h_rechain, 'padded': h_padded, 'roundtrip': h_roundtrip, 'variants': h_variants, 'cross': h_cross, 'witver': h_witver, 'v0len': h_v0len, 'b58len': h_b58len,
+HARNESSES = {'mixedcase': h_mixedcase, 'rechain': h_rechain, 'padded': h_padded, 'roundtrip': h_roundtrip, 'variants': h_variants, 'cross': h_cross, 'witver': h_witver, 'v0len': h_v0len, 'b58len': h_b58len,
              'arbitrary': h_arbitrary}
 
 
@@ -333,6 +364,9 @@ def instances(tier):
             out.append(dict(h='rechain', p=dict(chain_a=a, chain_b=b, kind=k)))
     for chain in CHAINS:
         out.append(dict(h='padded', p=dict(chain=chain, plen=20)))
+    for i, which in enumerate(('upper_hrp', 'one_hrp_letter', 'upper_data')):
+        for kind in ('p2wpkh', 'p2wsh'):
+            out.append(dict(h='mixedcase', p=dict(chain=CHAINS[(i + (kind == 'p2wsh')) % 4], kind=kind, which=which)))
     for ver in range(1, 17):
         out.append(dict(h='witver', p=dict(chain=CHAINS[ver % 4], ver=ver, plen=[20, 32, 2, 40][ver % 4])))
     for plen in (2, 19, 21, 31, 33, 40):
